@@ -454,6 +454,21 @@ impl<'tcx> Cx<'tcx> {
                 }
             }
             ty::Ref(_, inner, _) | ty::RawPtr(inner, _) => {
+                if inner.is_str() {
+                    // wide pointer: (address, length)
+                    let psz = tcx.data_layout.pointer_size();
+                    let prov = a.provenance().ptrs().get(&off)?;
+                    let addr = read_uint(off, psz)? as usize;
+                    let len = read_uint(off + psz, psz)? as usize;
+                    if let GlobalAlloc::Memory(target) = tcx.global_alloc(prov.alloc_id()) {
+                        let ta = target.inner();
+                        if addr + len <= ta.len() {
+                            let bytes = ta.inspect_with_uninit_and_ptr_outside_interpreter(addr..addr + len);
+                            return Some(J::Obj(vec![("strlit", s(String::from_utf8_lossy(bytes).to_string()))]));
+                        }
+                    }
+                    return Some(J::Obj(vec![("opaque", s(tystr(ty)))]));
+                }
                 if !inner.is_sized(tcx, env) {
                     return Some(J::Obj(vec![("opaque", s(tystr(ty)))]));
                 }
